@@ -21,9 +21,10 @@ def _eval(test, val):
         return False
     if isinstance(test, ast.UnaryOp) and isinstance(test.op, ast.Not): return not _eval(test.operand, val)
     if isinstance(test, ast.Constant): return bool(test.value)
-    k, pol = canon(test)
+    k, pol = canon(_EXPAND(test) if _EXPAND else test)
     if k not in val: raise _Need(k)
     return val[k] == pol
+_EXPAND = None      # optional alias expansion applied to every atom (set by table(expand=...))
 _NEG = {ast.NotEq: ast.Eq, ast.NotIn: ast.In, ast.IsNot: ast.Is}
 def canon(test):
     """canonical atom text and polarity: a != b  ->  ('a == b', False) etc."""
@@ -95,7 +96,12 @@ def len_feasible(val):
     for x, cs in groups.items():
         if not any(all(_OPS[type(o)](n, k) == v for o, k, v in cs) for n in range(0, 6)): return False
     return True
-def table(stmts, feasible=len_feasible, max_rows=4096):
+def table(stmts, feasible=len_feasible, max_rows=4096, expand=None):
+    global _EXPAND
+    _EXPAND = expand
+    try: return _table(stmts, feasible, max_rows)
+    finally: _EXPAND = None
+def _table(stmts, feasible, max_rows):
     rows = []; stack = [{}]
     while stack:
         val = stack.pop()
